@@ -6,6 +6,7 @@ import (
 	"bufio"
 	"bytes"
 	"context"
+	"errors"
 	"fmt"
 	"io"
 	"net/http"
@@ -131,6 +132,38 @@ type Exchange struct {
 	BodyFault    *Fault
 	Delivered    int
 	SilentCancel bool // the request context was cancelled while the body stream stayed healthy
+	RespCut      bool // the client went away while the answer was being written: Write failed after RespCutAt bytes
+	RespCutAt    int
+}
+
+// cutWriter is a ResponseWriter whose connection breaks after a number of body
+// bytes: that Write is short and fails, every later one fails.
+type cutWriter struct {
+	http.ResponseWriter
+	left  int
+	at    int
+	fired bool
+}
+
+var errClientGone = errors.New("write tcp 192.0.2.1:1234: broken pipe (vsim: the client went away)")
+
+func (c *cutWriter) Write(p []byte) (int, error) {
+	if c.fired {
+		return 0, errClientGone
+	}
+	if len(p) <= c.left {
+		c.left -= len(p)
+		return c.ResponseWriter.Write(p)
+	}
+	n, _ := c.ResponseWriter.Write(p[:c.left])
+	c.left, c.fired = 0, true
+	return n, errClientGone
+}
+
+func (c *cutWriter) Flush() {
+	if f, ok := c.ResponseWriter.(http.Flusher); ok && !c.fired {
+		f.Flush()
+	}
 }
 
 type executor struct {
@@ -282,7 +315,28 @@ func (ex *executor) run() {
 	}
 	switch p.Config.Store {
 	case "", "localfs":
-		ex.fs = webdav.LocalFileSystem(spellRoot(w.Root, p.Config.RootForm))
+		root := spellRoot(w.Root, p.Config.RootForm)
+		if strings.HasPrefix(p.Config.RootForm, "rel-") {
+			// configured relative to the working directory of the server process
+			// (`webdav-server .`): the process changes into the sandbox for the run
+			if old, err := realos.Getwd(); err == nil {
+				dir := w.Sandbox
+				switch p.Config.RootForm {
+				case "rel-dot":
+					dir, root = w.Root, "."
+				case "rel-name":
+					root = realfp.Base(w.Root)
+				case "rel-dotslash":
+					root = "./" + realfp.Base(w.Root) + "/"
+				}
+				if err := realos.Chdir(dir); err != nil {
+					ex.res.Infra = "cannot change into the sandbox: " + err.Error()
+					return
+				}
+				defer realos.Chdir(old)
+			}
+		}
+		ex.fs = webdav.LocalFileSystem(root)
 	case "memfs":
 		ex.fs = ex.newMemFS()
 	}
@@ -478,6 +532,14 @@ func (ex *executor) serve(idx int, st *Step) *Exchange {
 
 	xc.Req = model.Request{Method: req.Method, Path: req.URL.Path, Host: req.Host, H: headerMap(req), Body: st.Body}
 	rec := httptest.NewRecorder()
+	var w http.ResponseWriter = rec
+	var cw *cutWriter
+	for i := range st.Faults {
+		if st.Faults[i].Seam == "resp-write" {
+			cw = &cutWriter{ResponseWriter: rec, left: st.Faults[i].At, at: st.Faults[i].At}
+			w = cw
+		}
+	}
 	func() {
 		defer func() {
 			if r := recover(); r != nil {
@@ -488,8 +550,14 @@ func (ex *executor) serve(idx int, st *Step) *Exchange {
 				}
 			}
 		}()
-		ex.h.ServeHTTP(rec, req)
+		ex.h.ServeHTTP(w, req)
 	}()
+	if cw != nil && cw.fired {
+		xc.RespCut, xc.RespCutAt = true, cw.at
+		if xc.Panic == "ErrAbortHandler" {
+			xc.Panic = "" // the documented way to give up on a connection that is gone
+		}
+	}
 	res := rec.Result()
 	rb, _ := io.ReadAll(res.Body)
 	if req.Method == "HEAD" {
@@ -556,7 +624,12 @@ func (ex *executor) rawStep(idx int, st *Step) {
 	if xc.BodyFailed || xc.BodyCut || xc.SilentCancel {
 		ex.res.Stats.FaultsFired["req-body:"+xc.BodyFault.Kind]++
 	}
-	ex.log.Addf("  -> %d %v body=%q", xc.Resp.Status, sortedHeader(xc.Resp.H), clipS(canonBody(&xc.Resp), 300))
+	if xc.RespCut {
+		ex.res.Stats.FaultsFired["resp-write:broken-pipe"]++
+		ex.log.Addf("  -> %d, the client went away after %d body bytes", xc.Resp.Status, xc.RespCutAt)
+	} else {
+		ex.log.Addf("  -> %d %v body=%q", xc.Resp.Status, sortedHeader(xc.Resp.H), clipS(canonBody(&xc.Resp), 300))
+	}
 	ex.last = xc
 	ex.noteTag(xc)
 	if srv := ex.plan.Config.Server; srv != "" {
@@ -864,7 +937,7 @@ func (ex *executor) judgeExchange(idx int, st *Step, xc *Exchange) {
 	after := ex.snapshot()
 	ex.res.Stats.shape(shapeOf(after))
 
-	if xc.Resp.Status == 207 {
+	if xc.Resp.Status == 207 && !xc.RespCut {
 		ex.checkHrefs(idx, class, xc, after)
 	}
 
@@ -890,8 +963,13 @@ func (ex *executor) judgeExchange(idx int, st *Step, xc *Exchange) {
 		ex.judgeDiskFault(idx, class, st, xc, after)
 	}
 
-	// C01 / C04: the resource-tree model
-	if ex.judge != nil && !diskFault {
+	// C01 / C04: the resource-tree model. An answer whose connection broke
+	// while it was written (only read-only requests get that fault) is not
+	// compared: what matters is what the requests after it are told.
+	if xc.RespCut {
+		ex.probe("answer-cut-by-a-vanished-client")
+	}
+	if ex.judge != nil && !diskFault && !xc.RespCut {
 		fs := ex.judge.Step(&xc.Req, &xc.Resp)
 		diverged := false
 		for _, f := range fs {
